@@ -1101,7 +1101,62 @@ fn response_across_timer_restarts(ctx: &mut Ctx) {
     }
 }
 
+/// A forwarded download that stalls: the origin's head and the first body bytes come in one segment, the client takes a few
+/// bytes and then nothing, and everybody is silent. Such an exchange is idle: it waits under the idle timer (without
+/// spinning) and is closed with a time-out between T and 2T after its last activity.
+fn stalled_download_times_out(ctx: &mut Ctx) {
+    for (version, t_ms, quota, chunked) in [(11u8, 1_000u64, 3usize, false), (2, 1_000, 3, false), (2, 30_000, 0, false), (3, 1_000, 1, true), (11, 200, 5, true)] {
+        let desc = format!(
+            "GET over HTTP/{}; the origin answers 200 with {} in the segment of its head and then says nothing more; the client takes {} body byte(s) and then nothing (idle timeout {} ms)",
+            version, if chunked { "the first chunk of a chunked body" } else { "the first 10 of 100 announced body bytes" }, quota, t_ms
+        );
+        begin_case(&desc);
+        let (tx, rx) = std::sync::mpsc::channel();
+        std::thread::spawn(move || {
+            let rt = tokio::runtime::Builder::new_current_thread().enable_all().start_paused(true).build().unwrap();
+            let ans = rt.block_on(async move {
+                let head: &[u8] = if chunked { b"HTTP/1.1 200 OK\r\nTransfer-Encoding: chunked\r\n\r\na\r\n0123456789\r\n" } else { b"HTTP/1.1 200 OK\r\nContent-Length: 100\r\n\r\n0123456789" };
+                let origin_ev: Vec<(u64, SrcEv)> = vec![(t_ms / 10, SrcEv::Chunk(head.to_vec()))];
+                let run = vfwd::run(
+                    VFwdRequest { method: "GET".into(), uri: "http://origin.test/big".into(), version, headers: if version == 11 { vec![("host".into(), b"origin.test".to_vec())] } else { vec![] } },
+                    SrcScript { events: vec![(1, SrcEv::Eof)], consume_err_at: None },
+                    SinkScript { quotas: vec![], ..Default::default() },
+                    SrcScript { events: origin_ev, consume_err_at: None },
+                    // (the client takes `quota` bytes and refuses everything after that, however often it is offered)
+                    SinkScript { quotas: std::iter::once(quota).chain(std::iter::repeat(0).take(20_000)).collect(), writable_delays: vec![1_000 * t_ms], ..Default::default() },
+                    t_ms,
+                )
+                .await;
+                let offered = run.log.iter().filter(|e| e.dir == 3 && e.call.starts_with("write:")).count();
+                format!("{} {} {}", run.result, run.end_ms, offered)
+            });
+            let _ = tx.send(ans);
+        });
+        let watched: Result<String, String> = match rx.recv_timeout(std::time::Duration::from_secs(20)) {
+            Ok(a) => Ok(a),
+            Err(_) => wedged(ctx, &desc),
+        };
+        ctx.stat("stalled_forwarded_downloads");
+        match watched {
+            Err(e) => ctx.oracle_failure("no_progress", &format!("{}: {}", desc, e)),
+            Ok(ans) => {
+                let mut it = ans.split(' ');
+                let (result, end) = (it.next().unwrap_or(""), it.next().and_then(|x| x.parse::<u64>().ok()).unwrap_or(0));
+                let offered = it.next().and_then(|x| x.parse::<usize>().ok()).unwrap_or(0);
+                if offered > 4 {
+                    ctx.oracle_failure("spin_or_hang", &format!("{}: the client's sink, which was refusing, was offered the pending bytes {} times before the exchange ended ({} at {} ms): the pipe did not wait for it to become writable (busy loop)", desc, offered, result, end));
+                }
+                let last_activity = t_ms / 10;
+                if result != "timedout" || end < last_activity + t_ms || end > last_activity + 2 * t_ms + t_ms / 2 {
+                    ctx.oracle_failure("stalled_download_not_timed_out", &format!("{}: exchange() ended with {} at {} ms (last activity at {} ms)", desc, result, end, last_activity));
+                }
+            }
+        }
+    }
+}
+
 pub fn run_restarts(ctx: &mut Ctx) {
+    stalled_download_times_out(ctx);
     response_across_timer_restarts(ctx);
     for (version, t_ms, pause) in [(11u8, 30_000u64, 40_000u64), (2, 30_000, 40_000), (3, 1_000, 1_700), (11, 1_000, 2_500)] {
         let desc = format!(
